@@ -29,6 +29,7 @@ type TEnv struct {
 	pkg  *ssa.Package
 	errs []string
 	macroParams map[string]bool // parameters of the macro whose body is being translated
+	neg         bool            // the formula being translated occurs in goal polarity (to be proved, not assumed)
 }
 
 func (vc *VC) newTEnv(st, old *State, pkg *ssa.Package) *TEnv {
@@ -64,6 +65,15 @@ func (te *TEnv) bindLets(ct *Contract, oldPhase bool) {
 		}
 		te.vars[l.Name] = tv
 	}
+}
+
+// goalFormula translates a formula that is going to be proved: universal quantifiers in goal polarity
+// get no extra instances (they only help where the quantifier is a hypothesis).
+func (te *TEnv) goalFormula(e Expr) string {
+	old := te.neg
+	te.neg = true
+	defer func() { te.neg = old }()
+	return te.formula(e)
 }
 
 func (te *TEnv) formula(e Expr) string {
@@ -168,8 +178,12 @@ func (te *TEnv) term(e Expr) TV {
 		}
 		return te.fail("cannot index %s (sort %s)", exprString(x.X), base.sort)
 	case *EUn:
+		if x.Op == "!" {
+			te.neg = !te.neg
+		}
 		v := te.term(x.X)
 		if x.Op == "!" {
+			te.neg = !te.neg
 			return TV{t: "(not " + v.t + ")", sort: sortBool}
 		}
 		return TV{t: "(- " + v.t + ")", sort: sortInt}
@@ -189,16 +203,78 @@ func (te *TEnv) term(e Expr) TV {
 			decl = append(decl, "("+name+" "+s+")")
 		}
 		body := inner.formula(x.Body)
+		if len(x.Triggers) > 0 {
+			var ps []string
+			for _, t := range x.Triggers {
+				ps = append(ps, inner.term(t).t)
+			}
+			body = "(! " + body + " :pattern (" + strings.Join(ps, " ") + "))"
+		}
 		te.errs = append(te.errs, inner.errs...)
 		q := "exists"
 		if x.Forall {
 			q = "forall"
 		}
-		return TV{t: "(" + q + " (" + strings.Join(decl, " ") + ") " + body + ")", sort: sortBool}
+		full := "(" + q + " (" + strings.Join(decl, " ") + ") " + body + ")"
+		if x.Forall && !te.neg && len(vc.indexTerms) > 0 && len(x.Vars) <= 2 {
+			// explicit instances at the program's index terms (see noteIndexTerm)
+			plain := inner.formulaNoTrigger(x)
+			var insts []string
+			terms := vc.indexTerms
+			if len(terms) > 4 {
+				terms = terms[len(terms)-4:]
+			}
+			for vi, v := range x.Vars {
+				if quantSort(v.Sort) != sortInt {
+					continue
+				}
+				name := v.Name + "!q"
+				if strings.Contains(plain, "(("+name+" ") || strings.Contains(plain, " ("+name+" ") {
+					continue // a nested binder of the same name
+				}
+				for _, t := range terms {
+					inst := substToken(plain, name, t)
+					if len(x.Vars) == 2 {
+						other := x.Vars[1-vi]
+						inst = "(forall ((" + other.Name + "!q " + quantSort(other.Sort) + ")) " + inst + ")"
+					}
+					insts = append(insts, inst)
+				}
+			}
+			if len(insts) > 0 {
+				full = "(and " + full + " " + strings.Join(insts, " ") + ")"
+			}
+		}
+		return TV{t: full, sort: sortBool}
 	case *ECall:
 		return te.call(x)
 	}
 	return te.fail("unsupported expression %s", exprString(e))
+}
+
+// formulaNoTrigger: the body of a quantifier as a plain formula (no pattern annotation)
+func (te *TEnv) formulaNoTrigger(x *EQuant) string {
+	return te.formula(x.Body)
+}
+
+// substToken replaces the SMT symbol name (delimited by spaces or parentheses) by term.
+func substToken(s, name, term string) string {
+	var b strings.Builder
+	for i := 0; i < len(s); {
+		if strings.HasPrefix(s[i:], name) {
+			before := i == 0 || s[i-1] == ' ' || s[i-1] == '('
+			j := i + len(name)
+			after := j >= len(s) || s[j] == ' ' || s[j] == ')'
+			if before && after {
+				b.WriteString(term)
+				i = j
+				continue
+			}
+		}
+		b.WriteByte(s[i])
+		i++
+	}
+	return b.String()
 }
 
 func (te *TEnv) ident(name string) TV {
@@ -454,7 +530,15 @@ func (te *TEnv) nilOf(other TV) string {
 func (te *TEnv) binary(x *EBin) TV {
 	switch x.Op {
 	case "&&", "||", "==>", "<==>":
-		l, r := te.formula(x.L), te.formula(x.R)
+		var l string
+		if x.Op == "==>" {
+			te.neg = !te.neg
+			l = te.formula(x.L)
+			te.neg = !te.neg
+		} else {
+			l = te.formula(x.L)
+		}
+		r := te.formula(x.R)
 		op := map[string]string{"&&": "and", "||": "or", "==>": "=>", "<==>": "="}[x.Op]
 		return TV{t: "(" + op + " " + l + " " + r + ")", sort: sortBool}
 	}
